@@ -181,9 +181,52 @@ def run_cases(ck: Check, n_small: int, n_large: int):
             ck.mismatch("c16-dft", f"structure factor differs from the naive DFT at entry {bad}: impl ({k[bad]}, {s[bad]}) model ({vals[bad, 0]}, {vals[bad, 1]})", case)
 
 
+def large_grids(ck: Check, quick: bool):
+    """the symmetry invariances of the SMOOTHED spectrum on grids with more than 2**14 Fourier modes (odd and unequal cell counts): reflection,
+    whole-cell translation, permutation of the axes together with the grid; the raw spectrum as a multiset"""
+    from pde import CartesianGrid, ScalarField
+    from droplets.image_analysis import get_structure_factor
+
+    rng = ck.rng
+    shapes = [(151, 149), (27, 29, 31)] if quick else [(151, 149), (160, 160), (27, 29, 31), (32, 32, 32), (40, 27, 33)]
+    for shape in shapes:
+        dim = len(shape)
+        dx = [rng.choice([1.0, 0.5, 2.5]) for _ in range(dim)]
+        grid = CartesianGrid([[0, n * d] for n, d in zip(shape, dx)], list(shape), periodic=True)
+        nrng = np.random.default_rng(rng.randrange(2**31))
+        data = nrng.uniform(-1, 1, size=shape) + rng.choice([0.0, 0.5])
+        field = ScalarField(grid, data)
+        case = {"kind": "large-grid", "shape": list(shape), "spacing": dx, "modes": int(np.prod(shape)) - 1}
+        sig = {"dim": dim, "kind": "large-grid"}
+        ck.case(("large", shape, tuple(dx), data.ravel()[:64].tobytes()))
+        ck.count("large_grids")
+        perm = list(range(dim))
+        rng.shuffle(perm)
+        if perm == list(range(dim)):
+            perm = perm[::-1]
+        gp = CartesianGrid([[0, shape[a] * dx[a]] for a in perm], [shape[a] for a in perm], periodic=True)
+        ax, shift = rng.randrange(dim), tuple(rng.randrange(1, n) for n in shape)
+        images = {"reflection+translation": ScalarField(grid, np.roll(np.flip(data, axis=ax), shift, axis=tuple(range(dim)))),
+                  "axis permutation": ScalarField(gp, np.transpose(data, perm))}
+        k0, s0 = sf_raw(field)
+        for sm in ("auto", 0.3):
+            ka, sa = get_structure_factor(field, smoothing=sm)
+            for how, f2 in images.items():
+                kb, sb = get_structure_factor(f2, smoothing=sm)
+                if not np.allclose(kb, ka, rtol=1e-12) or not np.allclose(sb, sa, rtol=1e-7, atol=1e-12):
+                    ck.fail(f"smoothed structure factor (smoothing={sm!r}) of a {shape} field is not invariant under {how}: relative change up to "
+                            f"{float(np.max(np.abs(sb - sa) / np.maximum(np.abs(sa), 1e-300))):.3g}", {**sig, "check": "smoothed_invariant", "how": how}, {**case, "smoothing": repr(sm)})
+        for how, f2 in images.items():
+            k2, s2 = sf_raw(f2)
+            if not same_multiset(k0, s0, k2, s2):
+                ck.fail(f"raw structure factor of a {shape} field changes as a multiset under {how}", {**sig, "check": "raw_multiset_invariant", "how": how}, case)
+
+
 def replay(case: dict):
     ck = Check("C16", "quick", 0)
     run_cases(ck, 30, 60)
+    if case.get("kind") == "large-grid":
+        large_grids(ck, True)
     bad = [f["what"] for f in ck.failures] + [m["what"] for m in ck.mismatches]
     return not bad, "; ".join(bad[:3]) or "property holds on re-run"
 
@@ -191,7 +234,7 @@ def replay(case: dict):
 def run(ck: Check):
     ck.rule = ("random fields (noise, noise with mean, plane waves + noise, blobs) on fully periodic Cartesian grids in 1-3 dimensions, even and odd shapes, "
                "anisotropic spacings, offsets; naive-DFT correspondence on small grids; invariances under scaling, translation, reflection, axis permutation, "
-               "grid stretching; option logic; non-trivial = every distinct field")
+               "grid stretching; option logic; grids with more than 2**14 modes (odd, unequal cell counts) for the smoothed invariances; non-trivial = every distinct field")
     ck.assumptions = ["numpy's fftn(norm='ortho') is the unitary DFT (checked against the naive DFT on small grids)",
                       "SmoothData1D (py-pde) is used as is: the smoothed clauses are checked on the implementation"]
     ck.lean = lean_stage("C16", leanchecker=not ck.quick)
@@ -199,3 +242,4 @@ def run(ck: Check):
         run_cases(ck, ck.budget(40, 500), ck.budget(60, 800))
     except RuntimeError as e:
         ck.mismatch("c16-dft", f"driver unavailable: {e}", {})
+    large_grids(ck, ck.quick)
